@@ -689,6 +689,34 @@ impl Recorder {
                 }
             }
         }
+        // data-derived stratum (both tiers): every prefix of the dictionary words that contain a character outside the Bengali
+        // block (abbreviations with an ASCII full stop, words with a non-joiner) - the words on which "ignoring punctuation and
+        // non-joiners" has something to ignore INSIDE the word
+        let mut odd: Vec<&String> = words.iter().filter(|w| w.chars().any(|c| !('\u{0980}'..='\u{09FF}').contains(&c))).collect();
+        odd.sort();
+        for w in odd {
+            let cs: Vec<char> = w.chars().collect();
+            for k in 1..=cs.len() {
+                let p: String = cs[..k].iter().collect();
+                if seen.insert(p) {
+                    items.push((cs[..k].iter().map(|c| c.to_string()).collect(), String::new()));
+                }
+            }
+        }
+        // ... and every ASCII punctuation / symbol character the layout can emit, typed INSIDE a few dictionary prefixes
+        let mut inner: Vec<String> = inv.inv.keys().filter(|v| v.chars().count() == 1 && v.chars().all(|c| c.is_ascii() && !c.is_ascii_alphanumeric())).cloned().collect();
+        inner.sort();
+        let hosts: Vec<Vec<char>> = words.iter().filter(|w| w.chars().count() == 4 && w.chars().all(|c| ('\u{0995}'..='\u{09B9}').contains(&c) || c == '\u{09BE}'))
+            .step_by(2011).take(4).map(|w| w.chars().collect()).collect();
+        for c in &inner {
+            for h in &hosts {
+                let mut v: Vec<String> = vec![h[0].to_string(), c.clone()];
+                v.extend(h[1..3].iter().map(|x| x.to_string()));
+                if seen.insert(v.concat()) {
+                    items.push((v, String::new()));
+                }
+            }
+        }
         // the two facts about the DATA that MC_FixedList!DataOK assumes (the list's de-duplication is consecutive-only):
         // checked on the dictionary as read here, validated by Trace_Cands!DictFacts
         if shard == 0 {
